@@ -67,7 +67,7 @@ fn eval_single(c: &Single, seed: u64, rep: &mut Report) {
         return;
     }
 
-    let mut fail = |rep: &mut Report, k: &str, what: String| {
+    let fail = |rep: &mut Report, k: &str, what: String| {
         rep.case(key, &format!("violation:{k}"), nontrivial);
         rep.violation(k, what, case());
     };
@@ -255,7 +255,7 @@ fn eval_seq(env: &SeqEnv, seq: &[usize], gaps: &[usize], seed: u64, rep: &mut Re
     }
     let got = guard(|| Blob::reconstruct_all(all.iter().copied(), app(env.app)));
     let want: Vec<&Blob> = seq.iter().map(|i| &env.blobs[*i]).collect();
-    let mut fail = |rep: &mut Report, k: &str, what: String| {
+    let fail = |rep: &mut Report, k: &str, what: String| {
         rep.case_nokey(&format!("violation:{k}"));
         rep.violation(k, what, case());
     };
